@@ -91,3 +91,115 @@ func Harness_C41_verify_token() {
 	assert(err == nil, "no-error-with-readable-records")
 	assert(ok == and(c41KeyProved, want), "confirmed-exactly-when-key-proved-and-role-grants-function")
 }
+
+// ---- delegation / withdrawal histories ----
+
+var (
+	c41TokStore  = map[string]*roleTokens{}
+	c41StatStore = map[string]*Status{}
+	c41Proved    = map[string]bool{}
+)
+
+func c41CopyStatus(s *Status) *Status {
+	if s == nil {
+		return nil
+	}
+	out := &Status{}
+	for _, d := range s.status {
+		c := *d
+		out.status = append(out.status, &c)
+	}
+	return out
+}
+
+// stubs for the history harness: a per-identity record store with value (serialise/deserialise) semantics
+func c41VerifySigBy(native *native.NativeService, ontID []byte, keyNo uint64) (bool, error) {
+	return c41Proved[string(ontID)], nil
+}
+func c41GetTokensBy(native *native.NativeService, contractAddr common.Address, ontID []byte) (*roleTokens, error) {
+	return c41TokStore[string(ontID)], nil
+}
+func c41GetStatusBy(native *native.NativeService, contractAddr common.Address, ontID []byte) (*Status, error) {
+	return c41CopyStatus(c41StatStore[string(ontID)]), nil
+}
+func c41PutStatusBy(native *native.NativeService, contractAddr common.Address, ontID []byte, status *Status) error {
+	c41StatStore[string(ontID)] = c41CopyStatus(status)
+	return nil
+}
+func c41VerifyID(id string) bool { return true }
+
+type c41Deleg struct {
+	exists bool
+	root   int
+	expire uint32
+}
+
+// Harness_C41_delegation: two role holders A and B delegate roles to C and withdraw them, at arbitrary
+// non-decreasing times; afterwards C may call a role's function exactly when C proved its key and holds an
+// unexpired delegation that its delegator has not withdrawn.
+func Harness_C41_delegation() {
+	holders := [][]byte{[]byte("did:ont:A"), []byte("did:ont:B")}
+	target := []byte("did:ont:C")
+	holderExpire := nondetU32("holder.expire")
+	c41TokStore = map[string]*roleTokens{}
+	c41StatStore = map[string]*Status{}
+	c41Proved = map[string]bool{}
+	c41RoleFns = map[string]*roleFuncs{
+		"r1": {funcNames: []string{"f"}},
+		"r2": {funcNames: []string{"g"}},
+	}
+	for _, h := range holders {
+		c41TokStore[string(h)] = &roleTokens{tokens: []*AuthToken{
+			{role: c41Roles[0], expireTime: holderExpire, level: 2},
+			{role: c41Roles[1], expireTime: holderExpire, level: 2},
+		}}
+	}
+	var ref [2]c41Deleg
+	now := nondetU32("now")
+	ns := &native.NativeService{Time: now}
+	steps := param("steps")
+	for i := 0; i < steps; i++ {
+		dt := nondetU32("dt")
+		assume(now+dt >= now)
+		now += dt
+		ns.Time = now
+		who := nondetRange("who", 2)
+		r := nondetRange("role", param("roles"))
+		kp := nondetBool("keyproved")
+		c41Proved[string(holders[who])] = kp
+		if nondetBool("withdraw") {
+			ok, err := withdraw(ns, common.Address{}, holders[who], target, c41Roles[r], 1)
+			want := kp && ref[r].exists && ref[r].root == who
+			assert(err == nil, "withdraw-no-error")
+			assert(ok == want, "withdraw-succeeds-exactly-for-the-delegator")
+			if want {
+				ref[r].exists = false
+			}
+		} else {
+			period := nondetU32("period")
+			level := nondetU8("level")
+			ok, err := delegate(ns, common.Address{}, holders[who], target, c41Roles[r], period, level, 1)
+			if now+period < period {
+				assert(err != nil, "delegate-overflow-rejected")
+				continue
+			}
+			assert(err == nil, "delegate-no-error")
+			held := ref[r].exists && now < ref[r].expire
+			want := kp && !held && level == 1 && now+period < holderExpire
+			assert(ok == want, "delegate-succeeds-exactly-when-allowed")
+			if want {
+				ref[r] = c41Deleg{exists: true, root: who, expire: now + period}
+			}
+		}
+	}
+	dt := nondetU32("dt.final")
+	assume(now+dt >= now)
+	ns.Time = now + dt
+	kpc := nondetBool("keyproved.c")
+	c41Proved[string(target)] = kpc
+	fi := nondetRange("fn", param("roles"))
+	ok, err := verifyToken(ns, common.Address{}, target, c41Fns[fi], 1)
+	assert(err == nil, "verify-no-error")
+	want := kpc && ref[fi].exists && ref[fi].expire >= ns.Time
+	assert(ok == want, "delegate-may-call-exactly-while-delegation-stands")
+}
